@@ -193,12 +193,19 @@ def run(chk):
                     grew = True
     family_nodes = [repo.classes[(FILE, cn)] for cn in family]
     family_methods = [m for cn in family for m in repo.methods(FILE, cn)]
+    # ... or over classes of other modules of the package (a mixin with the grammar-independent part)
+    family_files = {FILE}
+    for (rel_, cn_) in repo.class_mro.get((FILE, "_VerilogCircuitGraphTransformer"), [])[1:]:
+        if (rel_, cn_) in repo.classes and repo.classes[(rel_, cn_)] not in family_nodes:
+            family_nodes.append(repo.classes[(rel_, cn_)])
+            family_methods += [m for m in repo.methods(rel_, cn_) if m.file == rel_]
+            family_files.add(rel_)
     # helpers - as opposed to callbacks lark calls by rule name - are the methods the class itself reaches through `self.<name>`
     # and the ones that are not plain methods (properties, static / class methods)
     helpers = {"__init__"} | {n.attr for cd in family_nodes for n in ast.walk(cd) if isinstance(n, ast.Attribute) and isinstance(n.value, ast.Name) and n.value.id == "self"}
     helpers |= {n.attr for cd in family_nodes for n in ast.walk(cd) if isinstance(n, ast.Attribute) and isinstance(n.value, ast.Call) and isinstance(n.value.func, ast.Name) and n.value.func.id == "super"}
     # ... or that helper classes of the module reach through a reference to the transformer (`self.transformer.add_blackbox(...)`)
-    helpers |= {n.attr for n in ast.walk(repo.tree[FILE]) if isinstance(n, ast.Attribute) and isinstance(n.value, ast.Attribute)}
+    helpers |= {n.attr for f_ in sorted(family_files) for n in ast.walk(repo.tree[f_]) if isinstance(n, ast.Attribute) and isinstance(n.value, ast.Attribute)}
     helpers |= {m.node.name for m in family_methods
                 if any(ast.unparse(d).split(".")[-1] in ("property", "staticmethod", "classmethod", "cached_property", "setter") for d in m.node.decorator_list)}
     callbacks = [m for m in family_methods if m.node.name not in helpers and not m.node.name.startswith("_")]
@@ -514,6 +521,9 @@ def run(chk):
         "slashes inside a block comment, code after it, later block comment": (module_text(["a", "b"], ["o", "p"], ["w"], ["/* see http://x.y // old: assign o = a; */ nand g0(w, a, b);", "assign o = w;", "/* second */ assign p = w & a;"]),
                                                                                {"o": lambda v: not (v["a"] and v["b"]), "p": lambda v: (not (v["a"] and v["b"])) and v["a"]}),
     }
+    # block comments whose delimiters carry extra stars (doc-comment style): the comment still ends at the first `*/`
+    com_cases["block comments opened or closed with several stars"] = (module_text(["a", "b"], ["o", "p"], ["w", "v"], ["/** doc **/ and g0(w, a, b);", "/***/ or g1(v, a, b);", "/* plain */ assign o = w;", "/**** x ***/ assign p = v ^ w; /* end **/"]),
+                                                                        {"o": lambda v: v["a"] and v["b"], "p": lambda v: (v["a"] or v["b"]) != (v["a"] and v["b"])})
     # identifiers that contain the keywords the entry point cuts the module out with
     com_cases["nets named x_endmodule / endmodule_x / my_module"] = (module_text(["a", "b"], ["o", "p"], ["x_endmodule", "endmodule_x", "my_module"],
                                                                                  ["and g0(x_endmodule, a, b);", "or g1(endmodule_x, a, b);", "not g2(my_module, a);", "assign o = x_endmodule ^ endmodule_x;", "assign p = my_module;"]),
